@@ -481,41 +481,54 @@ Qed.
 (* ================================================================ the regenerated table satisfies the range conditions *)
 Definition same_cat (a b : unit) : bool := String.eqb (u_cat a) (u_cat b).
 Definition Kv : Z := 40.
+Definition Kw : Z := 800.
 (* an ordered pair of linear/reciprocal units of one category: coefficients are valid finite non-zero
-   binary64s and the four-operation chain stays in the normal range for 2^-Kv <= |v| <= 2^Kv *)
-Definition pair_check (ua ub : unit) : bool :=
+   binary64s and the four-operation chain stays in the normal range for 2^-K <= |v| <= 2^K *)
+Definition pair_check (K : Z) (ua ub : unit) : bool :=
   if same_cat ua ub && is_lr ua && is_lr ub
-  then finb (cnum ua) && finb (cnum ub) && tab_ok ua ub (- Kv, Kv)%Z else true.
+  then finb (cnum ua) && finb (cnum ub) && tab_ok ua ub (- K, K)%Z else true.
 (* ordered triples (ub, uc range over the linear/reciprocal units of ua's category) *)
 Definition lr_mates (l : list unit) (ua : unit) : list unit := filter (fun x => same_cat ua x && is_lr x) l.
-Definition triple_check_on (sa : ksum) (cs : list ksum) : bool :=
-  forallb (fun sb => forallb (fun sc => compS_ok sa sb sc (- Kv, Kv)%Z) cs) cs.
-Definition triple_check (l : list unit) (ua : unit) : bool :=
-  if is_lr ua then triple_check_on (usum ua) (map usum (lr_mates l ua)) else true.
+Definition triple_check_on (K : Z) (sa : ksum) (cs : list ksum) : bool :=
+  forallb (fun sb => forallb (fun sc => compS_ok sa sb sc (- K, K)%Z) cs) cs.
+Definition triple_check (K : Z) (l : list unit) (ua : unit) : bool :=
+  if is_lr ua then triple_check_on K (usum ua) (map usum (lr_mates l ua)) else true.
 
 (* exhaustive over the regenerated table (the statements are kept in forallb form: the kernel must not be
-   asked to convert a folded name into the computation) *)
-Lemma table_lr_pairs_ok : forallb (fun ua => forallb (pair_check ua) all_units) all_units = true.
+   asked to convert a folded name into the computation), for the window asked for (2^-40 .. 2^40) and for a
+   much wider one (2^-800 .. 2^800) *)
+Lemma table_lr_pairs_ok : forallb (fun ua => forallb (pair_check Kv ua) all_units) all_units = true.
 Proof. vm_cast_no_check (eq_refl true). Qed.
-Lemma table_lr_triples_ok : forallb (triple_check all_units) all_units = true.
+Lemma table_lr_triples_ok : forallb (triple_check Kv all_units) all_units = true.
 Proof. vm_cast_no_check (eq_refl true). Qed.
+Lemma table_lr_pairs_ok_wide : forallb (fun ua => forallb (pair_check Kw ua) all_units) all_units = true.
+Proof. vm_cast_no_check (eq_refl true). Qed.
+Lemma table_lr_triples_ok_wide : forallb (triple_check Kw all_units) all_units = true.
+Proof. vm_cast_no_check (eq_refl true). Qed.
+
 Lemma same_cat_true a b : u_cat a = u_cat b -> same_cat a b = true.
 Proof. intros H. unfold same_cat. rewrite H. apply String.eqb_refl. Qed.
 
-Lemma table_pair ua ub : In ua all_units -> In ub all_units -> u_cat ua = u_cat ub ->
+Section AnyWindow.
+  (* any window exponent K for which the two exhaustive table checks hold *)
+  Variable K : Z.
+  Hypothesis HP : forallb (fun ua => forallb (pair_check K ua) all_units) all_units = true.
+  Hypothesis HT : forallb (triple_check K all_units) all_units = true.
+
+Lemma table_pairK ua ub : In ua all_units -> In ub all_units -> u_cat ua = u_cat ub ->
   is_lr ua = true -> is_lr ub = true ->
-  fin (cnum ua) /\ fin (cnum ub) /\ tab_ok ua ub (- Kv, Kv)%Z = true.
+  fin (cnum ua) /\ fin (cnum ub) /\ tab_ok ua ub (- K, K)%Z = true.
 Proof.
-  intros Ia Ib C La Lb. pose proof table_lr_pairs_ok as H.
+  intros Ia Ib C La Lb. pose proof HP as H.
   rewrite forallb_forall in H. specialize (H ua Ia). rewrite forallb_forall in H. specialize (H ub Ib). unfold pair_check in H.
   rewrite (same_cat_true _ _ C), La, Lb in H. cbn [andb] in H.
   apply andb_prop in H. destruct H as [H H3]. apply andb_prop in H. destruct H as [H1 H2].
   split; [apply finb_fin; exact H1|]. split; [apply finb_fin; exact H2|exact H3].
 Qed.
-Lemma triple_extract (l : list unit) ua ub uc : forallb (triple_check l) l = true ->
+Lemma triple_extract (l : list unit) ua ub uc : forallb (triple_check K l) l = true ->
   In ua l -> In ub l -> In uc l ->
   u_cat ua = u_cat ub -> u_cat ub = u_cat uc ->
-  is_lr ua = true -> is_lr ub = true -> is_lr uc = true -> comp_ok ua ub uc (- Kv, Kv)%Z = true.
+  is_lr ua = true -> is_lr ub = true -> is_lr uc = true -> comp_ok ua ub uc (- K, K)%Z = true.
 Proof.
   intros H Ia Ib Ic C1 C2 La Lb Lc.
   rewrite forallb_forall in H. specialize (H ua Ia). unfold triple_check, triple_check_on in H. rewrite La in H.
@@ -525,40 +538,40 @@ Proof.
   { apply in_map. unfold lr_mates. apply filter_In. split; [exact Ic|]. rewrite (same_cat_true ua uc) by congruence. rewrite Lc. reflexivity. }
   rewrite forallb_forall in H. specialize (H _ Mb). rewrite forallb_forall in H. exact (H _ Mc).
 Qed.
-Lemma table_triple ua ub uc : In ua all_units -> In ub all_units -> In uc all_units ->
+Lemma table_tripleK ua ub uc : In ua all_units -> In ub all_units -> In uc all_units ->
   u_cat ua = u_cat ub -> u_cat ub = u_cat uc ->
-  is_lr ua = true -> is_lr ub = true -> is_lr uc = true -> comp_ok ua ub uc (- Kv, Kv)%Z = true.
-Proof. exact (triple_extract all_units ua ub uc table_lr_triples_ok). Qed.
+  is_lr ua = true -> is_lr ub = true -> is_lr uc = true -> comp_ok ua ub uc (- K, K)%Z = true.
+Proof. exact (triple_extract all_units ua ub uc HT). Qed.
 
 (* no range hypothesis left: any two linear/reciprocal units of one category of the table, any valid v
    with 2^-40 <= |v| <= 2^40 *)
-Theorem there_and_back_float_table : forall ua ub v,
+Theorem there_and_back_float_tableK : forall ua ub v,
   In ua all_units -> In ub all_units -> u_cat ua = u_cat ub -> is_lr ua = true -> is_lr ub = true ->
-  fin v -> win (- Kv) Kv (Rv v) ->
+  fin v -> win (- K) K (Rv v) ->
   let r2 := through_base fl v ua ub in
   let r4 := through_base fl r2 ub ua in
   fin r2 /\ fin r4 /\ Rabs (Rv r4 - Rv v) <= (qq ^ 4 - 1) * Rabs (Rv v).
 Proof.
   intros ua ub v Ia Ib C La Lb Fv Wv.
-  destruct (table_pair ua ub Ia Ib C La Lb) as [Fa [Fb OK]].
-  exact (there_and_back_float_lr ua ub v (- Kv, Kv)%Z La Lb Fa Fb Fv Wv OK).
+  destruct (table_pairK ua ub Ia Ib C La Lb) as [Fa [Fb OK]].
+  exact (there_and_back_float_lr ua ub v (- K, K)%Z La Lb Fa Fb Fv Wv OK).
 Qed.
 
-Theorem composition_float_table : forall ua ub uc v,
+Theorem composition_float_tableK : forall ua ub uc v,
   In ua all_units -> In ub all_units -> In uc all_units ->
   u_cat ua = u_cat ub -> u_cat ub = u_cat uc ->
   is_lr ua = true -> is_lr ub = true -> is_lr uc = true ->
-  fin v -> win (- Kv) Kv (Rv v) ->
+  fin v -> win (- K) K (Rv v) ->
   let r_ab := through_base fl v ua ub in
   let r_abc := through_base fl r_ab ub uc in
   let r_ac := through_base fl v ua uc in
   fin r_abc /\ fin r_ac /\ Rabs (Rv r_abc - Rv r_ac) <= (qq ^ 6 - 1) * Rabs (Rv r_ac).
 Proof.
   intros ua ub uc v Ia Ib Ic C1 C2 La Lb Lc Fv Wv.
-  destruct (table_pair ua ub Ia Ib C1 La Lb) as [Fa [Fb _]].
-  destruct (table_pair ub uc Ib Ic C2 Lb Lc) as [_ [Fc _]].
-  exact (composition_float_lr ua ub uc v (- Kv, Kv)%Z La Lb Lc Fa Fb Fc Fv Wv
-           (table_triple ua ub uc Ia Ib Ic C1 C2 La Lb Lc)).
+  destruct (table_pairK ua ub Ia Ib C1 La Lb) as [Fa [Fb _]].
+  destruct (table_pairK ub uc Ib Ic C2 Lb Lc) as [_ [Fc _]].
+  exact (composition_float_lr ua ub uc v (- K, K)%Z La Lb Lc Fa Fb Fc Fv Wv
+           (table_tripleK ua ub uc Ia Ib Ic C1 C2 La Lb Lc)).
 Qed.
 
 (* ================================================================ 6a. the same at the level of convert / the built-in *)
@@ -576,9 +589,9 @@ Proof. intros H. apply Rle_pow; [apply qq_ge1|exact H]. Qed.
 
 (* what a user calls: convert(v, a, b) then convert(_, b, a), for ANY two identifiers that resolve to
    linear/reciprocal units of one category (the same unit included: then the result is v itself) *)
-Theorem builtin_there_and_back_float : forall a b ua ub v,
+Theorem builtin_there_and_back_floatK : forall a b ua ub v,
   resolve_unit a = UOk ua -> resolve_unit b = UOk ub -> u_cat ua = u_cat ub ->
-  is_lr ua = true -> is_lr ub = true -> fin v -> win (- Kv) Kv (Rv v) ->
+  is_lr ua = true -> is_lr ub = true -> fin v -> win (- K) K (Rv v) ->
   exists r1 r2,
     builtin_convert (ANum v) (AStr a) (AStr b) = UOk r1 /\
     builtin_convert (ANum r1) (AStr b) (AStr a) = UOk r2 /\
@@ -594,13 +607,13 @@ Proof.
   destruct (same_ids ua ub) eqn:E.
   - replace (Rv v - Rv v) with 0 by ring. rewrite Rabs_R0.
     apply Rmult_le_pos; [pose proof (qq_pow_ge1 4); lra|apply Rabs_pos].
-  - apply (there_and_back_float_table ua ub v Ia Ib C La Lb Fv Wv).
+  - apply (there_and_back_float_tableK ua ub v Ia Ib C La Lb Fv Wv).
 Qed.
 
-Theorem builtin_composition_float : forall a b c ua ub uc v,
+Theorem builtin_composition_floatK : forall a b c ua ub uc v,
   resolve_unit a = UOk ua -> resolve_unit b = UOk ub -> resolve_unit c = UOk uc ->
   u_cat ua = u_cat ub -> u_cat ub = u_cat uc ->
-  is_lr ua = true -> is_lr ub = true -> is_lr uc = true -> fin v -> win (- Kv) Kv (Rv v) ->
+  is_lr ua = true -> is_lr ub = true -> is_lr uc = true -> fin v -> win (- K) K (Rv v) ->
   exists r1 r2 r3,
     builtin_convert (ANum v) (AStr a) (AStr b) = UOk r1 /\
     builtin_convert (ANum r1) (AStr b) (AStr c) = UOk r2 /\
@@ -625,11 +638,27 @@ Proof.
   { apply (same_ids_unit _ _ Ib Ic) in Ebc. subst uc. rewrite Eab. apply Z0. }
   destruct (same_ids ua uc) eqn:Eac.
   { apply (same_ids_unit _ _ Ia Ic) in Eac. subst uc.
-    destruct (there_and_back_float_table ua ub v Ia Ib C1 La Lb Fv Wv) as [_ [_ H]].
+    destruct (there_and_back_float_tableK ua ub v Ia Ib C1 La Lb Fv Wv) as [_ [_ H]].
     eapply Rle_trans; [exact H|]. apply Rmult_le_compat_r; [apply Rabs_pos|].
     pose proof (qq_pow_mono 4 6 ltac:(lia)). lra. }
-  apply (composition_float_table ua ub uc v Ia Ib Ic C1 C2 La Lb Lc Fv Wv).
+  apply (composition_float_tableK ua ub uc v Ia Ib Ic C1 C2 La Lb Lc Fv Wv).
 Qed.
+
+End AnyWindow.
+
+(* the window asked for: 2^-40 <= |v| <= 2^40 *)
+Definition table_pair := table_pairK Kv table_lr_pairs_ok.
+Definition table_triple := table_tripleK Kv table_lr_triples_ok.
+Definition there_and_back_float_table := there_and_back_float_tableK Kv table_lr_pairs_ok.
+Definition composition_float_table := composition_float_tableK Kv table_lr_pairs_ok table_lr_triples_ok.
+Definition builtin_there_and_back_float := builtin_there_and_back_floatK Kv table_lr_pairs_ok.
+Definition builtin_composition_float := builtin_composition_floatK Kv table_lr_pairs_ok table_lr_triples_ok.
+(* and 2^-800 <= |v| <= 2^800 *)
+Definition table_pair_wide := table_pairK Kw table_lr_pairs_ok_wide.
+Definition table_triple_wide := table_tripleK Kw table_lr_triples_ok_wide.
+Definition there_and_back_float_table_wide := there_and_back_float_tableK Kw table_lr_pairs_ok_wide.
+Definition composition_float_table_wide := composition_float_tableK Kw table_lr_pairs_ok_wide table_lr_triples_ok_wide.
+Definition builtin_composition_float_wide := builtin_composition_floatK Kw table_lr_pairs_ok_wide table_lr_triples_ok_wide.
 
 (* a decidable form of all the hypotheses, for instantiation *)
 Definition vwin_b (v : num) : bool := (finb v && (- Kv <=? lo v) && (lo v + 1 <=? Kv))%Z.
@@ -962,11 +991,16 @@ Definition tab_bound (ua ub : unit) (a : R) : R :=
   | _, _ => (qq ^ 4 - 1) * a
   end.
 
+Section AnyWindowAllKinds.
+  Variable K : Z.
+  Hypothesis HK : (K <= 1000)%Z.
+  Hypothesis HP : forallb (fun ua => forallb (pair_check K ua) all_units) all_units = true.
+
 (* ---- what a user calls, every kind: convert(v, a, b) then convert(_, b, a) for ANY two identifiers that
    resolve to units of one category, any valid v with 2^-40 <= |v| <= 2^40 *)
-Theorem builtin_there_and_back_all_kinds : forall a b ua ub v,
+Theorem builtin_there_and_back_all_kindsK : forall a b ua ub v,
   resolve_unit a = UOk ua -> resolve_unit b = UOk ub -> u_cat ua = u_cat ub ->
-  fin v -> win (- Kv) Kv (Rv v) ->
+  fin v -> win (- K) K (Rv v) ->
   exists r1 r2,
     builtin_convert (ANum v) (AStr a) (AStr b) = UOk r1 /\
     builtin_convert (ANum r1) (AStr b) (AStr a) = UOk r2 /\
@@ -974,18 +1008,18 @@ Theorem builtin_there_and_back_all_kinds : forall a b ua ub v,
 Proof.
   intros a b ua ub v Ra Rb C Fv Wv.
   pose proof (resolve_unit_In _ _ Ra) as Ia. pose proof (resolve_unit_In _ _ Rb) as Ib.
-  pose proof (table_kinds_uniform ua ub Ia Ib C) as K.
+  pose proof (table_kinds_uniform ua ub Ia Ib C) as KU.
   destruct (is_lr ua) eqn:La.
-  - symmetry in K.
-    destruct (builtin_there_and_back_float a b ua ub v Ra Rb C La K Fv Wv) as [r1 [r2 [H1 [H2 H3]]]].
+  - symmetry in KU.
+    destruct (builtin_there_and_back_floatK K HP a b ua ub v Ra Rb C La KU Fv Wv) as [r1 [r2 [H1 [H2 H3]]]].
     exists r1, r2. split; [exact H1|]. split; [exact H2|].
-    unfold tab_bound. unfold is_lr in La, K.
-    destruct (u_conv ua); try discriminate La; destruct (u_conv ub); try discriminate K; exact H3.
-  - symmetry in K. unfold is_lr in La, K. unfold tab_bound.
+    unfold tab_bound. unfold is_lr in La, KU.
+    destruct (u_conv ua); try discriminate La; destruct (u_conv ub); try discriminate KU; exact H3.
+  - symmetry in KU. unfold is_lr in La, KU. unfold tab_bound.
     destruct (u_conv ua) as [| |ta fa] eqn:Ca; try discriminate La.
-    destruct (u_conv ub) as [| |tb fb] eqn:Cb; try discriminate K.
+    destruct (u_conv ub) as [| |tb fb] eqn:Cb; try discriminate KU.
     assert (Hv : Rabs (Rv v) <= bpow radix2 1000).
-    { destruct Wv as [_ W]. eapply Rle_trans; [exact W|apply bpow_le; discriminate]. }
+    { destruct Wv as [_ W]. eapply Rle_trans; [exact W|apply bpow_le; exact HK]. }
     eexists. eexists. rewrite !builtin_is_convert.
     rewrite (same_category_converts fl v a b ua ub Ra Rb C). split; [reflexivity|].
     rewrite (same_category_converts fl _ b a ub ua Rb Ra (eq_sym C)). split; [reflexivity|].
@@ -995,6 +1029,12 @@ Proof.
     + apply (there_and_back_float_temperature ua ub ta fa tb fb v Ca Cb
                (table_inverse_pair _ _ _ Ia Ca) (table_inverse_pair _ _ _ Ib Cb) (fin_finz _ Fv) Hv).
 Qed.
+
+End AnyWindowAllKinds.
+Definition builtin_there_and_back_all_kinds :=
+  builtin_there_and_back_all_kindsK Kv ltac:(discriminate) table_lr_pairs_ok.
+Definition builtin_there_and_back_all_kinds_wide :=
+  builtin_there_and_back_all_kindsK Kw ltac:(discriminate) table_lr_pairs_ok_wide.
 
 (* temperature only, on the full range (zero and the offsets included) *)
 Theorem builtin_there_and_back_temperature : forall a b ua ub ta fa tb fb v,
@@ -1054,10 +1094,13 @@ Proof.
   apply (win_in_range _ _ _ O4); apply win_div; assumption.
 Qed.
 
-Theorem there_and_back_float_linear_table : forall ua ub la lb v,
+Section AnyWindowLinear.
+  Variable K : Z.
+  Hypothesis HP : forallb (fun ua => forallb (pair_check K ua) all_units) all_units = true.
+Theorem there_and_back_float_linear_tableK : forall ua ub la lb v,
   In ua all_units -> In ub all_units -> u_cat ua = u_cat ub ->
   u_conv ua = Linear la -> u_conv ub = Linear lb ->
-  fin v -> win (- Kv) Kv (Rv v) ->
+  fin v -> win (- K) K (Rv v) ->
   let r2 := through_base fl v ua ub in
   let r4 := through_base fl r2 ub ua in
   exists e1 e2 e3 e4,
@@ -1068,13 +1111,17 @@ Proof.
   intros ua ub la lb v Ia Ib C Ha Hb Fv Wv.
   assert (La : is_lr ua = true) by (unfold is_lr; rewrite Ha; reflexivity).
   assert (Lb : is_lr ub = true) by (unfold is_lr; rewrite Hb; reflexivity).
-  destruct (table_pair ua ub Ia Ib C La Lb) as [Fa [Fb OK]].
+  destruct (table_pairK K HP ua ub Ia Ib C La Lb) as [Fa [Fb OK]].
   assert (Ea : cnum ua = num_of_bits (l_bits la)) by (unfold cnum, coef_of; rewrite Ha; reflexivity).
   assert (Eb : cnum ub = num_of_bits (l_bits lb)) by (unfold cnum, coef_of; rewrite Hb; reflexivity).
   rewrite Ea in Fa. rewrite Eb in Fb.
-  destruct (linear_in_ranges ua ub la lb v (- Kv, Kv)%Z Ha Hb Fa Fb Fv Wv OK) as [R1 [R2 [R3 R4]]].
+  destruct (linear_in_ranges ua ub la lb v (- K, K)%Z Ha Hb Fa Fb Fv Wv OK) as [R1 [R2 [R3 R4]]].
   exact (there_and_back_float_linear ua ub la lb v Ha Hb Fv Fa Fb R1 R2 R3 R4).
 Qed.
+End AnyWindowLinear.
+Definition there_and_back_float_linear_table := there_and_back_float_linear_tableK Kv table_lr_pairs_ok.
+Definition there_and_back_float_linear_table_wide := there_and_back_float_linear_tableK Kw table_lr_pairs_ok_wide.
+
 
 (* ================================================================ 5b. composition for the temperature kind:
    fl(A->B->C) and fl(A->C) both approximate the same ideal value; the bound is the sum of the two accumulated errors.
